@@ -310,7 +310,12 @@ def search(prop_id, tier, verif_seed, n_runs=None, workers=None, quiet=False):
         for h in harness[:5]:
             print("HARNESS-ERROR property=%s %s" % (prop_id, h))
         sys.stdout.flush()
-        return 2
+        # a concrete violation with a replay file stands on its own feet (e.g. code under test
+        # that keeps state in a module-level object makes runs depend on what ran before in the
+        # same worker: the determinism re-run notices that, and the violation is real all the
+        # same); without one a harness error is never a verdict
+        if not replay_paths:
+            return 2
     if replay_paths:
         for sig, path, count in replay_paths:
             print("signature=%s runs_hit=%d" % (sig, count))
